@@ -257,7 +257,32 @@ func c14OnceRest(c *mon.Ctx, seen map[string]lint.LintStatus) {
 		r   lint.Registry
 		lbl string
 	}{{lint.GlobalRegistry(), "global"}}
-	for len(regs) < c.Pick(12, 80) {
+	// registries that hold lints of one or two kinds only, and none at all
+	kindNames := map[corpus.Kind][]string{}
+	for _, li := range Inv {
+		kindNames[li.Kind] = append(kindNames[li.Kind], li.Name)
+	}
+	for _, ks := range [][]corpus.Kind{{corpus.Cert}, {corpus.CRL}, {corpus.OCSP}, {corpus.Cert, corpus.CRL}, {corpus.Cert, corpus.OCSP}, {corpus.CRL, corpus.OCSP}, {}} {
+		var inc []string
+		lbl := "kinds"
+		for _, k := range ks {
+			if ns := kindNames[k]; len(ns) > 0 {
+				inc = append(inc, ns[0], ns[len(ns)/2], ns[len(ns)-1])
+			}
+			lbl += " " + k.String()
+		}
+		o := lint.FilterOptions{IncludeNames: inc}
+		if len(inc) == 0 {
+			o = lint.FilterOptions{IncludeSources: lint.SourceList{lint.UnknownLintSource}}
+		}
+		if r, err := lint.GlobalRegistry().Filter(o); err == nil {
+			regs = append(regs, struct {
+				r   lint.Registry
+				lbl string
+			}{r, lbl + " only"})
+		}
+	}
+	for len(regs) < c.Pick(20, 90) {
 		o := randFilter(rng, false)
 		if r, err := lint.GlobalRegistry().Filter(o); err == nil {
 			regs = append(regs, struct {
@@ -277,8 +302,17 @@ func c14OnceRest(c *mon.Ctx, seen map[string]lint.LintStatus) {
 		}
 		lines := 0
 		got := map[string]int{}
-		for _, l := range strings.Split(buf.String(), "\n") {
-			if l == "" {
+		// "exactly one line per registered lint": the text is the lines, each ended by a newline - a blank line is a
+		// line that is no lint (only the empty listing of an empty registry has none at all)
+		text := strings.TrimSuffix(buf.String(), "\n")
+		var listing []string
+		if text != "" || len(want) > 0 {
+			listing = strings.Split(text, "\n")
+		}
+		for _, l := range listing {
+			if strings.TrimSpace(l) == "" {
+				lines++
+				c.V("listing-blank-line", fmt.Sprintf("WriteJSON printed a blank line among %d lines for %d registered lints (%s)", len(listing), len(want), rg.lbl), "", nil, nil)
 				continue
 			}
 			lines++
@@ -427,8 +461,17 @@ func c14Solo(c *mon.Ctx) {
 		g.WriteJSON(&buf)
 		names := map[string]int{}
 		lines := 0
-		for _, l := range strings.Split(buf.String(), "\n") {
-			if l == "" {
+		// "exactly one line per registered lint": the text is the lines, each ended by a newline - a blank line is a
+		// line that is no lint (only the empty listing of an empty registry has none at all)
+		text := strings.TrimSuffix(buf.String(), "\n")
+		var listing []string
+		if text != "" || len(g.Names()) > 0 {
+			listing = strings.Split(text, "\n")
+		}
+		for _, l := range listing {
+			if strings.TrimSpace(l) == "" {
+				lines++
+				c.V("listing-blank-line|"+when, fmt.Sprintf("%s: WriteJSON printed a blank line among %d lines", when, len(listing)), "", nil, nil)
 				continue
 			}
 			lines++
